@@ -12,8 +12,11 @@
 //!   connout                          the socket connects out to a raw listener we own -> o#j=ok|err
 //!   rstburst K n=N                   N clients connect and reset (RST) without yielding to the runtime (use with `ct` in the head) -> rb=done
 //!   staller K off=N mode=stop|close|garbage   raw client that misbehaves after N handshake bytes -> s#j=started
+//!   moninstall                       monitor() is called NOW (for the first time, or again: the new receiver replaces the old one)
+//!   finish J garbage|close|good      a `staller ... mode=stop` client goes on: 97 junk octets / closes / sends the rest of a valid handshake -> f#J=done
 //!   xchg J                           one message over raw connection J (direction by socket type) -> x#J=ok|fail:<why>
 //!   bigxchg J SIZE                   raw peer J sends one message with a SIZE-byte frame, recv awaited in the root future -> X#J=ok|fail:<why>
+//!   flood N SIZE                     the socket sends N messages of SIZE octets while no raw peer reads -> fl=ok|fl=fail:<why>
 //!   park                             start a recv() that parks, in a background task (fair-queue sockets)
 //!   probe K                          plain connect to bind #K -> p#K=accepted|refused
 //!   binds                            -> binds=#a,#b (sorted)
@@ -170,6 +173,7 @@ async fn scenario(head: Vec<String>, ops: Vec<Vec<String>>) -> Vec<String> {
     let base_fds = open_fds();
     let mut parked: Option<tokio::task::JoinHandle<Option<AnySock>>> = None;
     let mut listeners: Vec<tokio::net::TcpListener> = Vec::new();
+    let mut stall_off: HashMap<usize, usize> = HashMap::new();
     for op in &ops {
         if op.is_empty() {
             continue;
@@ -348,7 +352,10 @@ async fn scenario(head: Vec<String>, ops: Vec<Vec<String>>) -> Vec<String> {
                                 let _ = s.write_all(&[0x13u8; 97]).await;
                                 raws.push(Some(Raw { s, extra: vec![], ready: false }));
                             }
-                            _ => raws.push(Some(Raw { s, extra: vec![], ready: false })),
+                            _ => {
+                                stall_off.insert(j, n);
+                                raws.push(Some(Raw { s, extra: vec![], ready: false }))
+                            }
                         }
                         out.push(format!("s#{}=started", j));
                     }
@@ -478,10 +485,34 @@ async fn scenario(head: Vec<String>, ops: Vec<Vec<String>>) -> Vec<String> {
                 out.push("drop".to_string());
             }
             "sleep" => tokio::time::sleep(Duration::from_millis(t[1].parse().unwrap())).await,
+            "flood" => {
+                let n: usize = t[1].parse().unwrap();
+                let size: usize = t[2].parse().unwrap();
+                let mut res = "ok".to_string();
+                if let Some(sk) = sock.as_mut() {
+                    for _ in 0..n {
+                        let f = sk.send(zmsg(vec![vec![b'F'; size]])).unwrap();
+                        match tokio::time::timeout(Duration::from_secs(2), f).await {
+                            Err(_) => {
+                                res = "fail:timeout".to_string();
+                                break;
+                            }
+                            Ok(Err(e)) => {
+                                res = format!("fail:{}", zeromq::__verif::error_class(&e));
+                                break;
+                            }
+                            Ok(Ok(())) => {}
+                        }
+                    }
+                } else {
+                    res = "fail:gone".to_string();
+                }
+                out.push(format!("fl={}", res));
+            }
             "peers_eof" => {
                 for (j, r) in raws.iter_mut().enumerate() {
                     if let Some(raw) = r {
-                        let mut buf = [0u8; 256];
+                        let mut buf = vec![0u8; 1 << 16];
                         let deadline = tokio::time::Instant::now() + GRACE;
                         let mut res = "no";
                         loop {
@@ -524,6 +555,38 @@ async fn scenario(head: Vec<String>, ops: Vec<Vec<String>>) -> Vec<String> {
             "dropraws" => {
                 raws.clear();
                 listeners.clear();
+            }
+            "moninstall" => {
+                monitor = Some(sock_monitor(sock.as_mut().unwrap()));
+                out.push("mi=ok".into());
+            }
+            "finish" => {
+                let j: usize = t[1].parse().unwrap();
+                let off = stall_off.get(&j).copied().unwrap_or(0);
+                match t[2] {
+                    "close" => {
+                        raws[j] = None;
+                    }
+                    "garbage" => {
+                        if let Some(r) = raws[j].as_mut() {
+                            // something that is certainly not the rest of a handshake: inside the greeting junk octets,
+                            // after it a complete command frame that is not READY
+                            if off >= 64 {
+                                let _ = r.s.write_all(&[0x04, 0x05, 0x04, b'J', b'U', b'N', b'K']).await;
+                            } else {
+                                let _ = r.s.write_all(&[0x13u8; 97]).await;
+                            }
+                        }
+                    }
+                    _ => {
+                        if let Some(r) = raws[j].as_mut() {
+                            let hb = handshake_bytes(peer_type(&stype), None);
+                            let _ = r.s.write_all(&hb[off.min(hb.len())..]).await;
+                        }
+                    }
+                }
+                tokio::time::sleep(Duration::from_millis(150)).await;
+                out.push(format!("f#{}=done", j));
             }
             "monitor" => {
                 tokio::time::sleep(Duration::from_millis(100)).await;
